@@ -12,8 +12,26 @@ PY = "/venv/bin/python"
 WORK = os.path.join(VERIF, ".work")
 os.makedirs(WORK, exist_ok=True)
 
-ENV = dict(os.environ, PYTHONPATH=REPO, PYTHONHASHSEED="0", PYTHONDONTWRITEBYTECODE="1",
+# VERIF_EXTRA_PYTHONPATH: development only (line-coverage measurement of /repo under the harness, tools/coverage.sh)
+ENV = dict(os.environ, PYTHONPATH=os.pathsep.join([REPO] + [x for x in [os.environ.get("VERIF_EXTRA_PYTHONPATH")] if x]),
+           PYTHONHASHSEED="0", PYTHONDONTWRITEBYTECODE="1",
            SIMPLELINE_VERIF="1")
+
+
+def stop_proc(p):
+    """End a worker subprocess: kill it.  Development only (VERIF_GRACEFUL=1, line-coverage measurement): close its
+    stdin first and give it a moment to end by itself so that its coverage data is written."""
+    try:
+        if os.environ.get("VERIF_GRACEFUL") and p.poll() is None:
+            try:
+                p.stdin.close(); p.wait(4)
+            except Exception:
+                pass
+        if p.poll() is None:
+            p.kill()
+        p.wait(5)
+    except Exception:
+        pass
 
 
 def use_repo():
